@@ -21,7 +21,7 @@ MaxBad = 3000
 CHECK_DEADLOCK FALSE
 POSTCONDITION Post
 """
-NENC = 18
+NENC = 19
 
 
 def js(x):
@@ -72,7 +72,7 @@ def locus_of(b):
 
 
 # encoders that receive a pointer (addressable value: offset based plans, pointer-receiver methods reachable)
-ADDRESSABLE = {"oj.JSON/ptr", "oj.JSON/indent", "oj.Write/wl40", "sen.String/ptr", "sen.Write/wl7", "alt.Decompose/ptr"}
+ADDRESSABLE = {"oj.JSON/ptr", "oj.JSON/indent", "sen.String/indent", "oj.Write/wl40", "sen.String/ptr", "sen.Write/wl7", "alt.Decompose/ptr"}
 FAIL_CLASSES = {"nil-embedded-pointer": {"nil-embedded-indirection", "empty-output"},
                 "named-scalar": {"interface-conversion", "empty-output"},
                 "custom": {"reflect.Value.Addr_of_unaddressable_valu", "empty-output"},
@@ -195,9 +195,9 @@ def gen_cases(ctx):
         raise Infra("case generation produced only %d cases" % len(cases))
     # named library types as top-level values (CreateKey / FullTypePath need a named top-level type)
     for top in ("S", "T1", "T2", "U", "V", "W", "Tagged", "Unexp", "Emb", "EmbPtr", "Simp", "PSimp", "Gen", "JM", "PJM", "TM",
-                "[]anyF", "[]anyP", "L1", "Str1", "Str2", "Col1", "Col2", "Col3"):
+                "[]anyF", "[]anyP", "L1", "Str1", "Str2", "Col1", "Col2", "Col3", "[4]uint8", "[1]uint8", "[0]uint8", "BA4", "BS", "[]BS", "[][4]uint8"):
         for v in ("z", "n", "e"):
-            if top.startswith("[]any") and v == "z":
+            if (top.startswith("[]") or top == "BS") and v == "z":
                 continue          # a nil top-level slice is not a struct value (null or [] are both fine)
             cases.append({"f": [], "top": top, "v": v})
     p = os.path.join(ctx.scratch, "enc_gen_cases.ndjson")
